@@ -23,7 +23,7 @@ Theorem C06_gre_transparent : forall f b f' p,
   gre_flow_encap f b = Ok (f', p) ->
   exists iph, pk_body p = framed (gl_raw f) (eth_for (gl_cl f) (gl_sv f)) (ip_ser iph ++ gre_ser 0 (gl_ethertype f) ++ b)
     /\ gre_decode (gre_ser 0 (gl_ethertype f) ++ b) = Some {| g_flags := 0; g_proto := gl_ethertype f; g_seq := None; g_payload := b |}
-    /\ gl_seq f' = gl_seq f + 1 /\ gl_flags f' = gl_flags f /\ gl_ethertype f' = gl_ethertype f.
+    /\ gl_seq f' = wrap32 (gl_seq f + 1) /\ gl_flags f' = gl_flags f /\ gl_ethertype f' = gl_ethertype f.
 Proof. exact gre_flow_transparent. Qed.
 
 (** ERSPAN type I: GRE protocol 0x88be, nothing else *)
@@ -42,14 +42,14 @@ Theorem C06_erspan2_transparent : forall f b ix f' p,
     /\ gre_decode (gre_ser 4096 ETH_ERSPAN_1_2 ++ be32 (e2_seq f) ++ erspan2_ser 0 ix ++ b)
        = Some {| g_flags := 4096; g_proto := 35006; g_seq := Some (e2_seq f); g_payload := erspan2_ser 0 ix ++ b |}
     /\ erspan2_decode (erspan2_ser 0 ix ++ b) = Some (1, ix mod 1048576, b)
-    /\ e2_seq f' = e2_seq f + 1 /\ e2_sess f' = e2_sess f.
+    /\ e2_seq f' = wrap32 (e2_seq f + 1) /\ e2_sess f' = e2_sess f.
 Proof. exact erspan2_transparent. Qed.
 
 (** sequences: exactly one outer packet per inner packet, in the same order; the session counter
     advances by the number of packets, so the n-th packet of a session carries n-1 *)
 Theorem C06_erspan2_counts : forall ix ps f f' qs,
-  erspan2_encap_all f ix ps = Ok (f', qs) ->
-  length qs = length ps /\ e2_seq f' = e2_seq f + len ps /\ e2_sess f' = e2_sess f
+  erspan2_encap_all f ix ps = Ok (f', qs) -> e2_seq f < 4294967296 ->
+  length qs = length ps /\ e2_seq f' = (e2_seq f + len ps) mod 4294967296 /\ e2_sess f' = e2_sess f
   /\ e2_cl f' = e2_cl f /\ e2_sv f' = e2_sv f /\ e2_raw f' = e2_raw f.
 Proof. exact erspan2_encap_all_counts. Qed.
 Theorem C06_one_per_packet : forall (A B : Type) (g : A -> outcome B) l qs,
